@@ -279,9 +279,14 @@ def minimise(
         raise RuntimeError("violation does not reproduce in-process from its own values")
     best: RunResult = first
 
+    def alive() -> bool:
+        # asked by every loop below before it builds a candidate: a run of 10^5 draws (a thread run stepping every
+        # line) makes building the candidates quadratic long after the budget for executing them is spent
+        return budget[0] > 0 and time.time() - t0 <= max_s
+
     def attempt(cand: list[int]) -> bool:
         nonlocal best
-        if budget[0] <= 0 or time.time() - t0 > max_s:
+        if not alive():
             return False
         budget[0] -= 1
         r = _fails_same(world, lens, cfg, cand, sig)
@@ -291,12 +296,12 @@ def minimise(
         return False
 
     improved = True
-    while improved and budget[0] > 0 and time.time() - t0 <= max_s:
+    while improved and alive():
         improved = False
         # 1. drop the tail: exhausted draws answer 0
         cur = _measure(best.values)[1]
         lo, hi = 0, len(cur)
-        while lo < hi and budget[0] > 0:
+        while lo < hi and alive():
             mid = (lo + hi) // 2
             if attempt(cur[:mid]):
                 improved = True
@@ -307,7 +312,7 @@ def minimise(
         for span in (8, 4, 2, 1):
             cur = _measure(best.values)[1]
             i = 0
-            while i + span <= len(cur) and budget[0] > 0:
+            while i + span <= len(cur) and alive():
                 if attempt(cur[:i] + cur[i + span:]):
                     cur = _measure(best.values)[1]
                     improved = True
@@ -317,7 +322,7 @@ def minimise(
         for span in (8, 1):
             cur = _measure(best.values)[1]
             i = 0
-            while i < len(cur) and budget[0] > 0:
+            while i < len(cur) and alive():
                 if any(cur[i:i + span]):
                     if attempt(cur[:i] + [0] * len(cur[i:i + span]) + cur[i + span:]):
                         cur = _measure(best.values)[1]
@@ -326,9 +331,9 @@ def minimise(
         # 4. halve values
         cur = _measure(best.values)[1]
         i = 0
-        while i < len(cur) and budget[0] > 0:
+        while i < len(cur) and alive():
             v = cur[i]
-            while v > 1 and budget[0] > 0:
+            while v > 1 and alive():
                 v //= 2
                 if attempt(cur[:i] + [v] + cur[i + 1:]):
                     cur = _measure(best.values)[1]
